@@ -65,6 +65,10 @@ func c11StmtKits() map[string][]*ast.Node {
 		"method-named-member-on-array":           {set("c11a", ast.Arr(ast.Num("1"))), ast.ExprS(ast.Set(ast.Mem(ast.Id("c11a"), "push"), ast.Num("1")))},
 		"incdec-on-method-named-member":          {set("c11n", ast.Num("5")), ast.ExprS(ast.Post("++", ast.Mem(ast.Id("c11n"), "round")))},
 		"compound-on-method-named-member":        {set("c11s", ast.Str("abc")), ast.ExprS(ast.Asg("+=", ast.Mem(ast.Id("c11s"), "upper"), ast.Num("1")))},
+		// a container compared with itself (through one name, through an alias, as an element)
+		"compare-array-with-itself":     {set("c11a", ast.Arr(ast.Num("1"))), set("c11t", ast.Bin("==", ast.Id("c11a"), ast.Id("c11a")))},
+		"compare-object-with-its-alias": {set("c11o", ast.Obj(ast.KV("k", ast.Num("1")))), set("c11p", ast.Id("c11o")), set("c11t", ast.Bin("<=", ast.Id("c11o"), ast.Id("c11p")))},
+		"contains-own-container-element": {set("c11a", ast.Arr(ast.Arr(ast.Num("1")))), set("c11t", ast.Method(ast.Id("c11a"), "contains", ast.Idx(ast.Id("c11a"), ast.Num("0"))))},
 		"string-index-on-array": {set("c11a", ast.Arr()), ast.ExprS(ast.Set(ast.Idx(ast.Id("c11a"), ast.Str("x")), ast.Num("1")))},
 		"index-too-large":  {set("c11a", ast.Arr()), ast.ExprS(ast.Set(ast.Idx(ast.Id("c11a"), ast.Num("3000000")), ast.Num("1")))},
 		"forin-unset":      {ast.ForIn("c11e", "", ast.Id("c11unset"), ast.Block())},
@@ -427,7 +431,10 @@ func genC11Splice(t *rapid.T) *C11Splice {
 	fallback := false
 	switch recipe {
 	case "illegal-char":
-		ch := rapid.SampledFrom([]string{"@", "^", "?", "`", "&", "|", "\\", "\x01", "\x7f", "\x00", "\x00"}).Draw(t, "char")
+		ch := rapid.SampledFrom([]string{"@", "^", "?", "`", "&", "|", "\\", "\x01", "\x7f", "\x00", "\x00",
+			// bytes that other tools count as blanks (vertical tab, form feed, NEL, no-break space), other
+			// control bytes, and letters whose UTF-8 form ends in such a byte
+			"\x0b", "\x0c", "\x85", "\xa0", "\x08", "\x0e", "\x1b", "\x1f", "\xad", "\xb7", "à", "Å", "\xc2\xa0", "\xe2\x80\x83"}).Draw(t, "char")
 		// any token boundary, the very end included; never directly in front of a
 		// separator's neighbour inside a string (tokens are atomic, so no such place exists)
 		at := rapid.IntRange(0, len(r.Toks)).Draw(t, "boundary")
